@@ -13,6 +13,12 @@ Engine P.  Sections:
   fixed-points         g h g^-1, g = origin_to(p) for every lattice point p, h standard rotation /
                        loxodromic / parabolic: fixed_point, fixed_point_pair, axis
 
+  wall-histories       engine E (no merging): query / move / re-set / rebuild / index / flatten / round-trip sequences of
+                       depth <= 3 on single and composite walls; the reflection reported at the end is the closed-form
+                       reflection in the model's current normal
+  isometry-histories   engine E (no merging): fixed-point queries interleaved with squaring, inverting, conjugating,
+                       multiplying by a commuting element, re-setting and rebuilding an isometry of known type
+
 Oracle: the reflection in w is v -> v - 2 <v,w>/<w,w> w (row convention M = I - 2 J w^T w / <w,w>);
 attracting end of a loxodromic by 60-fold iteration of an interior point; Minkowski classification from
 mc/oracle/hyp.py.  Matrices act on row vectors on the right (the library's convention, pinned here by
@@ -348,6 +354,14 @@ def case_fixed(case):
     n, kind, param = case["n"], case["kind"], case["param"]
     iso = _conj(H, n, case["g"], _standard(H, n, kind, param))
     tag = "conjugate by origin_to(%s) of the standard %s(%s) of H^%d" % (_f(case["g"]), kind, param, n)
+    return _fixed_checks(H, iso, iso, n, kind, case["probe"], tag)
+
+
+def _fixed_checks(H, iso, act, n, kind, probe, tag):
+    """The fixed-point clauses for the isometry object `iso` of the given conjugacy type; `act` is an
+    isometry object with the same matrix that is used for every "is it fixed" test (the same object in
+    the one-shot sections, a fresh object built from the matrix in the history sections)."""
+    case = {"probe": probe}
     v, t = [], 4
     # a triple eigenvalue (parabolic) is only resolved to eps^(1/3) ~ 6e-6 by any eigen-solver
     ftol = 1e-3 if kind == "parabolic" else 1e-6
@@ -357,7 +371,7 @@ def case_fixed(case):
             # The known finding (F12) is specifically: the basis LAPACK returns for the (>=2-dimensional)
             # 1-eigenspace contains no timelike vector.  Decide that independently, so that any OTHER
             # failure on rotations of H^n, n >= 3, keeps its own key.
-            Mt = np.asarray(iso.proj_data, dtype=float).T
+            Mt = np.asarray(act.proj_data, dtype=float).T
             w, V = np.linalg.eig(Mt)
             ones = [i for i in range(len(w)) if abs(w[i] - 1.0) < 1e-6]
             has_timelike = any(float(_qnorm(np.real(V[:, i]))) < -1e-6 for i in ones if np.max(np.abs(np.imag(V[:, i]))) < 1e-9)
@@ -368,7 +382,7 @@ def case_fixed(case):
 
     def fixed_err(rows):
         rows = np.atleast_2d(np.asarray(rows, dtype=float))
-        img = np.asarray((iso @ H.Point(rows.copy())).proj_data, dtype=float)
+        img = np.asarray((act @ H.Point(rows.copy())).proj_data, dtype=float)
         return float(np.max(hyp.proj_sin_err(img, rows)))
 
     fp = np.asarray(iso.fixed_point().proj_data, dtype=float)
@@ -401,7 +415,7 @@ def case_fixed(case):
             # attracting end: iterate an interior point 60 times with the library's own action
             x = H.Point(np.array(case["probe"], dtype=float), model="klein")
             for _ in range(60):
-                x = iso @ x
+                x = act @ x
                 d = np.asarray(x.proj_data, dtype=float)
                 x = H.Point(d / np.max(np.abs(d)))
             t += 60
@@ -424,7 +438,7 @@ def case_fixed(case):
             else:
                 # the axis is invariant: an interior point of it is moved along it
                 mid = ax[0] / ax[0][0] + ax[1] / ax[1][0]
-                im = np.asarray((iso @ H.Point(mid.copy())).proj_data, dtype=float)
+                im = np.asarray((act @ H.Point(mid.copy())).proj_data, dtype=float)
                 coef, res, rk, sv = np.linalg.lstsq(ax.T, im, rcond=None)
                 r = float(np.linalg.norm(ax.T @ coef - im) / np.linalg.norm(im))
                 if not r <= 1e-6:
@@ -549,6 +563,267 @@ def fixed_composite_cases(q, seed):
             yield {"n": n, "shape": [4], "items": [{"g": c["g"], "kind": c["kind"], "param": c["param"]} for c in mixed[i:i + 4]]}
 
 
+# ------------------------------------------------------------------------------------------
+# histories: query, then move / re-set / rebuild / index the object, then query again
+# ------------------------------------------------------------------------------------------
+HIST_DEPTH = 3
+
+
+def _explicit_isometry(n):
+    """A J-isometry written down without the library (row convention): rotation by 0.9 in the
+    (x1,x2)-plane followed by the boost of rapidity 0.6 along x_n."""
+    c, s = math.cos(0.9), math.sin(0.9)
+    Rm = np.eye(n + 1)
+    Rm[1, 1], Rm[1, 2], Rm[2, 1], Rm[2, 2] = c, s, -s, c
+    ch, sh = math.cosh(0.6), math.sinh(0.6)
+    B = np.eye(n + 1)
+    B[0, 0], B[0, n], B[n, 0], B[n, n] = ch, sh, sh, ch
+    return Rm @ B
+
+
+def _make_wall(H, cls, ws, shape):
+    """Fresh library object of class `cls` and composite shape `shape` for the walls with normals ws
+    (flattened in C order)."""
+    shape = tuple(shape)
+    n1 = len(ws[0])
+    if cls == "Hyperplane":
+        if not shape:
+            return H.Hyperplane(np.array(ws[0], dtype=float))
+        return H.Hyperplane(np.array(ws, dtype=float).reshape(shape + (1, n1)))
+    rows = np.array([wall_ideal_rows(w) for w in ws])
+    rows = rows.reshape(shape + rows.shape[1:])
+    if cls == "Subspace":
+        return H.Subspace(rows.copy())
+    r0, r1 = rows[..., 0, :], rows[..., 1, :]
+    if cls == "Geodesic":
+        return H.Geodesic(H.Point(r0.copy()), H.Point(r1.copy()))
+    if cls == "Segment":       # between two interior points of the wall
+        return H.Segment(H.Point(0.7 * r0 + 0.3 * r1), H.Point(0.2 * r0 + 0.8 * r1))
+    raise ValueError(cls)
+
+
+def _wall_ops(cls, shape, n):
+    ops = [["refl"], ["read"], ["move", 0], ["move", 1], ["set"], ["rebuild"], ["flatten"]]
+    if cls in ("Hyperplane", "Subspace") or n == 2:
+        ops.append(["roundtrip"])
+    if len(shape) >= 1:
+        ops += [["index", i] for i in sorted({0, shape[0] - 1})]
+        ops.append(["setitem", shape[0] - 1])
+    return ops
+
+
+def case_wall_history(hist):
+    import warnings
+    with warnings.catch_warnings(), np.errstate(all="ignore"):
+        warnings.simplefilter("ignore")
+        return _case_wall_history(hist)
+
+
+def _case_wall_history(hist):
+    """hist = [["root", {...}], op, op, ...]; the model state is (class, composite shape, expected normals)."""
+    from geometry_tools import hyperbolic as H
+    root = hist[0][1]
+    n, cls, shape = root["n"], root["cls"], tuple(root["shape"])
+    ws = [np.array(w, dtype=float) for w in root["normals"]]
+    alts = [np.array(w, dtype=float) for w in root["alts"]]
+    nalt = 0
+
+    def take(count):
+        nonlocal nalt
+        out = [alts[(nalt + i) % len(alts)].copy() for i in range(count)]
+        nalt += count
+        return out
+
+    obj = _make_wall(H, cls, ws, shape)
+    t = 1
+    G0 = H.Point(np.array(root["g"], dtype=float), model="klein").origin_to()
+    M0 = np.array(G0.proj_data, dtype=float)
+    J = hyp.J(n)
+    if not float(np.max(np.abs(M0 @ J @ M0.T - J))) <= 1e-9 * (1.0 + float(np.max(np.abs(M0))) ** 2):
+        return {"v": [], "t": t, "o": "origin_to is not an isometry (C02)", "nt": False, "key": None, "ops": []}
+    M1 = _explicit_isometry(n)
+    movers = [(G0, M0), (H.Isometry(M1.copy()), M1)]
+    for op in hist[1:]:
+        k = op[0]
+        t += 1
+        if k == "refl":
+            obj.reflection_across()
+        elif k == "read":
+            obj.spacelike_complement()
+            obj.ideal_basis
+            obj.ideal_basis_coords()
+            t += 2
+        elif k == "move":
+            g, M = movers[op[1]]
+            obj = g @ obj
+            ws = [w @ M for w in ws]
+        elif k == "set":
+            ws = take(len(ws))
+            fresh = _make_wall(H, cls, ws, shape)
+            if cls in ("Geodesic", "Segment"):
+                e = np.asarray(fresh.proj_data, dtype=float)
+                obj.set_endpoints(H.Point(e[..., 0, :].copy()), H.Point(e[..., 1, :].copy()))
+            else:
+                obj.set(np.array(fresh.proj_data, dtype=float))
+        elif k == "rebuild":
+            obj = getattr(H, cls)(obj)
+        elif k == "flatten":
+            obj = obj.flatten_to_unit()
+            shape = (len(ws),)
+        elif k == "roundtrip":
+            R = obj.reflection_across()
+            if cls in ("Geodesic", "Segment"):
+                obj, cls = H.Geodesic.from_reflection(R), "Geodesic"
+            else:
+                obj, cls = H.Hyperplane.from_reflection(R), "Hyperplane"
+            t += 1
+        elif k == "index":
+            per = len(ws) // shape[0]
+            obj = obj[op[1]]
+            ws = ws[op[1] * per:(op[1] + 1) * per]
+            shape = shape[1:]
+        elif k == "setitem":
+            per = len(ws) // shape[0]
+            new = take(per)
+            obj[op[1]] = _make_wall(H, cls, new, shape[1:])
+            ws = ws[:op[1] * per] + new + ws[(op[1] + 1) * per:]
+        else:
+            raise ValueError(k)
+    names = " -> ".join([root["cls"] + str(list(root["shape"]))] + ["%s%s" % (o[0], o[1] if len(o) > 1 else "") for o in hist[1:]])
+    tag = "H^%d %s" % (n, names)
+    site = "history/%s" % root["cls"]
+    v = []
+    n1 = n + 1
+    got_shape = tuple(np.shape(obj.proj_data))[:len(shape)] if obj.__class__.__name__ == cls else None
+    R = obj.reflection_across()
+    t += 1
+    Ms = np.asarray(R.proj_data, dtype=float)
+    if got_shape != shape or Ms.shape != shape + (n1, n1) or not _finite(Ms):
+        v.append(_V("reflection/%s/shape-or-non-finite" % site, "%s: object %s with data of shape %r, reflection data of shape %r; expected %s of shape %r"
+                    % (tag, obj.__class__.__name__, np.shape(obj.proj_data), Ms.shape, cls, shape)))
+        return {"v": v, "t": t, "o": "shape", "nt": True, "key": None, "ops": []}
+    Ms = Ms.reshape((len(ws), n1, n1))
+    comp = np.asarray(obj.spacelike_complement().proj_data, dtype=float)
+    t += 1
+    comp = comp.reshape((len(ws), n1)) if comp.shape == shape + (n1,) else None
+    pds = np.asarray(obj.proj_data, dtype=float).reshape((len(ws),) + np.shape(obj.proj_data)[len(shape):])
+    seen = set()
+    for i, w in enumerate(ws):
+        w = w / math.sqrt(float(hyp.mink(w, w)))
+        mtag = "%s, member %d: expected wall normal %s" % (tag, i, _f(w))
+        vv = check_reflection(H, w, np.vstack([w[None, :], wall_ideal_rows(w)]), Ms[i], H.Isometry(Ms[i].copy()), mtag)
+        t += 2
+        if comp is None or not _finite(comp[i]) or not float(hyp.proj_sin_err(comp[i], w)) <= 1e-7:
+            vv.append(_V("reflection/spacelike_complement", "%s: spacelike_complement() = %s" % (mtag, _f(comp[i]) if comp is not None else "wrong shape")))
+        if cls == "Hyperplane":
+            prob = wall_problem(pds[i], w, "hyperplane-data")
+            if prob:
+                vv.append(_V(prob[0], "%s: %s" % (mtag, prob[1])))
+        for x in vv:
+            x["key"] = x["key"].replace("reflection/", "reflection/%s/" % site, 1)
+            if x["key"] not in seen:
+                seen.add(x["key"])
+                v.append(x)
+    ops = [] if (v or len(hist) - 1 >= HIST_DEPTH) else _wall_ops(cls, shape, n)
+    kinds = "+".join(sorted({o[0] for o in hist[1:]}))
+    return {"v": v, "t": t, "o": "%d|%s|%s|%s" % (n, root["cls"], len(shape), kinds), "nt": len(hist) > 1,
+            "key": repr(hist[1:]) + "@%s" % root["id"], "ops": ops}
+
+
+def wall_history_roots(seed):
+    roots = []
+    for n in (2, 3, 4):
+        gen = generic_normals(n, 12, seed)
+        # walls that do not pass through the origin and are not axis-parallel: w0 != 0
+        nice = [[0.5, 1.2, -0.4, 0.3, -0.7][:n + 1], [-0.4, -0.6, 1.1, 0.5, 0.2][:n + 1], [0.3, 0.2, -0.9, 1.3, 0.6][:n + 1],
+                [-0.7, 1.0, 0.8, -0.5, 0.9][:n + 1]]
+        ws = [w for w in nice + gen if float(hyp.mink(np.array(w), np.array(w))) > 0.2 and abs(w[0]) > 0.05]
+        g = [float(x) for x in lattice.klein_points(n, 6, seed)[-2]]
+        layouts = [("Hyperplane", []), ("Subspace", []), ("Hyperplane", [2]), ("Subspace", [2])]
+        if n == 2:
+            layouts += [("Geodesic", []), ("Segment", []), ("Geodesic", [2]), ("Segment", [2]), ("Hyperplane", [2, 2]), ("Geodesic", [2, 2])]
+        for li, (cls, shape) in enumerate(layouts):
+            cnt = int(np.prod(shape)) if shape else 1
+            for start in ((0, 4) if not shape else (0,)):      # two wall sets for single objects, one for composites
+                normals = [ws[(start + li + i) % len(ws)] for i in range(cnt)]
+                alts = [w for w in ws if w not in normals]
+                roots.append([["root", {"id": "%d-%s-%s-%d" % (n, cls, "x".join(map(str, shape)), start), "n": n, "cls": cls, "shape": shape,
+                                        "normals": normals, "alts": alts, "g": g}]])
+    return roots
+
+
+def _iso_ops(kind):
+    ops = [["fp"], ["square"], ["inv"], ["conj"], ["set"], ["rebuild"], ["premul"]]
+    if kind == "loxodromic":
+        ops.insert(1, ["pair"])
+    return ops
+
+
+ALT_PARAM = {"rotation": (0.4, 1.1), "loxodromic": (3.0, 1.8)}      # (commuting factor, replacement)
+
+
+def case_iso_history(hist):
+    """hist = [["root", {...}], op, ...]: an isometry h = F s F^-1 of known conjugacy type is queried for its
+    fixed points, then squared / inverted / conjugated / multiplied by a commuting element / re-set / rebuilt,
+    then queried again: the answers must be fixed points of the CURRENT isometry."""
+    from geometry_tools import hyperbolic as H
+    root = hist[0][1]
+    n, kind = root["n"], root["kind"]
+    F = H.Point(np.array(root["g"], dtype=float), model="klein").origin_to()
+    F2 = H.Point(np.array(root["g2"], dtype=float), model="klein").origin_to()
+    K = H.Isometry(_explicit_isometry(n))
+    h = F @ _standard(H, n, kind, root["param"]) @ F.inv()
+    t = 4
+    for op in hist[1:]:
+        k = op[0]
+        t += 1
+        if k == "fp":
+            h.fixed_point()
+        elif k == "pair":
+            h.fixed_point_pair()
+            h.axis()
+        elif k == "square":
+            h = h @ h
+        elif k == "inv":
+            h = h.inv()
+        elif k == "conj":
+            h = K @ h @ K.inv()
+            F = K @ F
+        elif k == "premul":     # c commutes with h (same centre / same axis): c @ h has the same type
+            c = F @ _standard(H, n, kind, ALT_PARAM[kind][0]) @ F.inv()
+            h = c @ h
+        elif k == "set":
+            other = F2 @ _standard(H, n, kind, ALT_PARAM[kind][1]) @ F2.inv()
+            h.set(np.array(other.proj_data, dtype=float))
+            F = F2
+        elif k == "rebuild":
+            h = H.Isometry(h)
+        else:
+            raise ValueError(k)
+    M = np.array(h.proj_data, dtype=float)
+    names = " -> ".join(["%s(%s)" % (kind, root["param"])] + [o[0] for o in hist[1:]])
+    tag = "H^%d history %s (conjugated by origin_to(%s)); current matrix %s" % (n, names, _f(root["g"]), _f(M))
+    if M.shape != (n + 1, n + 1) or not _finite(M):
+        return {"v": [_V("fixed_point/history/matrix", "%s: not a finite matrix" % tag)], "t": t, "o": "matrix", "nt": True, "key": None, "ops": []}
+    r = _fixed_checks(H, h, H.Isometry(M.copy()), n, kind, root["probe"], tag)
+    for x in r["v"]:
+        x["key"] = "history/" + x["key"]
+    ops = [] if (r["v"] or len(hist) - 1 >= HIST_DEPTH) else _iso_ops(kind)
+    kinds = "+".join(sorted({o[0] for o in hist[1:]}))
+    return {"v": r["v"], "t": t + r["t"], "o": "%d|%s|%s" % (n, kind, kinds), "nt": len(hist) > 1,
+            "key": repr(hist[1:]) + "@%s" % root["id"], "ops": ops}
+
+
+def iso_history_roots(seed):
+    roots = []
+    for n in (2, 3, 4):
+        P = [list(map(float, p)) for p in lattice.klein_points(n, 6, seed)]
+        for kind, param in (("rotation", 0.7), ("rotation", 2.0), ("loxodromic", 1.3), ("loxodromic", 0.5)):
+            roots.append([["root", {"id": "%d-%s-%s" % (n, kind, param), "n": n, "kind": kind, "param": param,
+                                    "g": P[-1], "g2": P[-3], "probe": P[-4]}]])
+    return roots
+
+
 def _tri(p, q, r):
     return [[1, p, r], [p, 1, q], [r, q, 1]]
 
@@ -578,7 +853,13 @@ def run(ctx):
     def want(name):
         return not only or any(name.startswith(p) for p in only)
 
-    ctx.rule = ("engine P: every spacelike lattice normal (and generic ones) x layout; every (lattice point, standard isometry) "
+    ctx.assume("histories: walls have generic normals with |w0| > 0.05 and Minkowski norm > 0.2; movers are origin_to(lattice point) (its matrix is "
+               "read from the library and must be a J-isometry, property C02) and an explicitly written rotation*boost; an object is only ever "
+               "modified through the public API (set, set_endpoints, item assignment, g @ obj, flatten_to_unit, copy constructor)")
+    ctx.assume("isometry histories keep the conjugacy type known: squares, inverses, conjugates, products with an element sharing the centre / axis "
+               "(angles and multipliers chosen so that no history reaches the identity)")
+    ctx.rule = ("engine E (histories): all op sequences of length <= %d, no merging; " % HIST_DEPTH +
+                "engine P: every spacelike lattice normal (and generic ones) x layout; every (lattice point, standard isometry) "
                 "conjugate; every generator of the listed Coxeter groups; a case is non-trivial unless the isometry is the identity")
     ctx.assume("normals are spacelike with Minkowski norm > 0.2 (lattice coordinates are floats)")
     ctx.assume("composite normals use the layout (N, 1, n+1) that Hyperplane accepts; (N, n+1) is outside the property")
@@ -610,6 +891,27 @@ def run(ctx):
     if want("coxeter-reflections"):
         ctx.product("coxeter-reflections", "checks.c15:case_coxeter", list(coxeter_cases(q)), chunk=2,
                     domains={"triangle groups": "quick: 7 triples, all orders; thorough: all hyperbolic (p,q,r) with entries <= 8", "rank 4": "linear diagrams [3,5,3] [5,3,4] [4,3,5] [5,3,5]"})
+    if want("wall-histories"):
+        roots = wall_history_roots(seed)
+        ctx.bfs("wall-histories", "checks.c15:case_wall_history", roots, depth=HIST_DEPTH, chunk=32,
+                domains={"roots": "Hyperplane(normal) / Subspace(ideal points) single and (2,) in H^2..H^4; Geodesic / Segment single, (2,), "
+                                  "Hyperplane and Geodesic (2,2) in H^2; two wall sets for single objects, one for composites (%d roots)" % len(roots),
+                         "ops": ["refl: reflection_across()", "read: spacelike_complement(), ideal_basis, ideal_basis_coords()",
+                                 "move 0: origin_to(lattice point) @ obj", "move 1: Isometry(explicit rotation*boost) @ obj",
+                                 "set: obj.set(data of other walls) / set_endpoints", "rebuild: Class(obj)", "flatten: flatten_to_unit()",
+                                 "roundtrip: from_reflection(reflection_across())", "index: obj[i]", "setitem: obj[i] = other wall"],
+                         "depth": HIST_DEPTH, "merging": "none (every op sequence is executed: the hidden state depends on the order of queries)",
+                         "invariant after every history": "reflection_across() of the CURRENT object is the reflection in the model's (moved / replaced) "
+                                                          "normal, member by member; spacelike_complement() is that normal"})
+    if want("isometry-histories"):
+        roots = iso_history_roots(seed)
+        ctx.bfs("isometry-histories", "checks.c15:case_iso_history", roots, depth=HIST_DEPTH, chunk=16,
+                domains={"roots": "conjugates of rotation(0.7), rotation(2.0), loxodromic(1.3), loxodromic(0.5) in H^2..H^4",
+                         "ops": ["fp: fixed_point()", "pair: fixed_point_pair(), axis() (loxodromic)", "square: h @ h", "inv: h.inv()",
+                                 "conj: K @ h @ K.inv()", "premul: c @ h for a commuting c of the same type", "set: h.set(matrix of another isometry of the type)",
+                                 "rebuild: Isometry(h)"],
+                         "depth": HIST_DEPTH, "merging": "none",
+                         "invariant after every history": "the fixed-point clauses of section fixed-points for the CURRENT matrix"})
     if want("fixed-points"):
         ctx.product("fixed-points-composite", "checks.c15:case_fixed_composite", list(fixed_composite_cases(q, seed)), chunk=4,
                     domains={"n": [2, 3, 4], "shapes": [[5], [2, 3], [1], [4]], "units": "consecutive and strided blocks of the fixed-points cases",
